@@ -763,7 +763,85 @@ def rule_unit_quaternions(ctx):
     ctx.covered('R20.9', 'returns of the branching rotation constructors are unit quaternions (unit typestate: normalize, basis literals, reduced from-to of unit vectors, products)', n, floor=4, samples=samples[:5])
 
 
+def rule_orbital_inverse(ctx):
+    """R20.10: reb_rotation_to_orbital inverts reb_rotation_init_orbit in each of its three branches. The product
+    P3 P2 P1 summarised by E8 is (r, iz, ix, iy) = (c cos s, c sin s, S cos d, S sin d) with c = cos(inc/2), S = sin(inc/2),
+    s = (Omega+omega)/2, d = (Omega-omega)/2, so atan2(iz, r) = s wherever c > 0 and atan2(iy, ix) = d wherever S > 0.
+    The angles returned in a branch are linear in those two arctangents; they must satisfy Omega + omega = 2 s in the
+    branches where c != 0 (general, inc ~ 0) and Omega - omega = 2 d where S != 0 (general, inc ~ pi)."""
+    import sympy as sp
+    from . import extents, pathcond
+    tus = cfront.load_tus(['rotations.c'])
+    E = e8.E8(tus)
+    Om, inc, om = sp.symbols('Omega inc omega', real=True)
+    n = 0
+    try:
+        q = E.call('reb_rotation_init_orbit', [Om, inc, om])
+    except e8.NotSummarisable as ex:
+        raise AnalysisError('R20.10: reb_rotation_init_orbit cannot be summarised: %s' % ex)
+    want = {'r': sp.cos(inc / 2) * sp.cos((Om + om) / 2), 'iz': sp.cos(inc / 2) * sp.sin((Om + om) / 2),
+            'ix': sp.sin(inc / 2) * sp.cos((Om - om) / 2), 'iy': sp.sin(inc / 2) * sp.sin((Om - om) / 2)}
+    for k_, w in want.items():
+        n += 1
+        res = sp.simplify(sp.expand_trig(sp.expand(q[k_] - w)))
+        if res != 0 and e8.zero_test(q[k_] - w, n=3) > 1e-25:
+            ctx.report('R20.10', 'init_orbit:%s' % k_, 'src/rotations.c reb_rotation_init_orbit', 'component %s of the orbit rotation is not %s (Murray & Dermott 2.121 as a quaternion)' % (k_, w))
+    fn = tus['rotations.c'].func('reb_rotation_to_orbital')
+    L = extents.lets(fn)
+    pc = pathcond.conditions(fn)
+    pi_flag = zero_flag = None
+    for d in walk(cfront.body(fn)):
+        if d.get('kind') == 'VarDecl' and 'init' in d and 'int' in qtype(d):
+            init = [c for c in d.get('inner', []) if c.get('kind') not in ('FullComment',)]
+            txt = render(init[-1]) if init else ''
+            if 'fabs' in txt and 'inc' in txt:
+                if '3.14159' in txt or 'M_PI' in txt:
+                    pi_flag = d['name']
+                else:
+                    zero_flag = d['name']
+    anchor(pi_flag and zero_flag, 'reb_rotation_to_orbital: the two tests that separate inc ~ 0 and inc ~ pi')
+    HS, HD = sp.symbols('HS HD', real=True)
+
+    def lin(e):
+        txt = extents.canon(extents.resolve(render(e), {k_: v_ for k_, v_ in L.items() if k_ not in (pi_flag, zero_flag)}))
+        txt = txt.replace('atan2q.iz,q.r', 'HS').replace('atan2q.iy,q.ix', 'HD')
+        if 'atan2' in txt or 'q.' in txt:
+            raise AnalysisError('R20.10: %s in reb_rotation_to_orbital is not a combination of atan2(iz, r) and atan2(iy, ix)' % render(e))
+        return sp.sympify(txt, locals={'HS': HS, 'HD': HD})
+    branches = {}
+    for e in walk(cfront.body(fn)):
+        if is_assign(e) and e['opcode'] == '=' and render(e['inner'][0]).replace(' ', '').strip('()') in ('*Omega', '*omega'):
+            atoms = [a_.strip('()') for a_ in pc.get(id(e), [])]
+            if any(zero_flag in a_ and pi_flag in a_ and not a_.startswith('!') for a_ in atoms):
+                br = 'general'
+            elif ('!' + zero_flag) in atoms:
+                br = 'inc~0'
+            elif zero_flag in atoms or ('!' + pi_flag) in atoms:
+                br = 'inc~pi'
+            else:
+                # an assignment common to both degenerate branches
+                br = 'degenerate'
+            branches.setdefault(br, {})[render(e['inner'][0]).replace(' ', '').strip('()*')] = (lin(e['inner'][1]), line_of(e))
+    for br in ('inc~0', 'inc~pi'):
+        for k_, v_ in branches.get('degenerate', {}).items():
+            branches.setdefault(br, {}).setdefault(k_, v_)
+    anchor(all(b in branches and set(branches[b]) == {'Omega', 'omega'} for b in ('general', 'inc~0', 'inc~pi')), 'reb_rotation_to_orbital assigns Omega and omega in the general, inc~0 and inc~pi branches')
+    for br, need_sum, need_diff in (('general', True, True), ('inc~0', True, False), ('inc~pi', False, True)):
+        O_, o_ = branches[br]['Omega'][0], branches[br]['omega'][0]
+        where = 'src/rotations.c:%s reb_rotation_to_orbital' % branches[br]['omega'][1]
+        if need_sum:
+            n += 1
+            if sp.simplify(O_ + o_ - 2 * HS) != 0:
+                ctx.report('R20.10', 'to_orbital:%s:sum' % br, where, 'in the %s branch Omega + omega = %s, not 2*atan2(iz, r): feeding the returned angles back into init_orbit gives a different rotation' % (br, sp.simplify(O_ + o_)))
+        if need_diff:
+            n += 1
+            if sp.simplify(O_ - o_ - 2 * HD) != 0:
+                ctx.report('R20.10', 'to_orbital:%s:diff' % br, where, 'in the %s branch Omega - omega = %s, not 2*atan2(iy, ix): feeding the returned angles back into init_orbit gives a different rotation' % (br, sp.simplify(O_ - o_)))
+    ctx.covered('R20.10', 'reb_rotation_to_orbital inverts reb_rotation_init_orbit: half-angle form of the product (E8) and the sum/difference relations in the general, inc~0 and inc~pi branches', n, floor=8)
+
+
 def run(ctx):
+    rule_orbital_inverse(ctx)
     rule_unit_quaternions(ctx)
     rule_com_variations(ctx)
     rule_unit_dimensions(ctx)
